@@ -129,6 +129,10 @@ def systematic():
         add(caps, [[sel([(True, 0, 0), (False, 0, 0)])], [op("recv", 0)]], "selsame")
         add(caps, [[sel([(True, 0, 0), (False, 0, 0)])], [op("send", 0)]], "selsame")
         add(caps, [[sel([(True, 0, 0), (False, 0, 0)])], [sel([(True, 0, 0), (False, 0, 0)])]], "selsame")
+    # select breaks ties by channel address: every two-channel scenario is also run with the address order reversed
+    for s in list(S):
+        if len(s["caps"]) == 2:
+            S.append(dict(s, rev=True))
     return S
 
 
@@ -155,7 +159,7 @@ def random_scenarios(rng, n):
                     cases = [(rng.random() < 0.5, rng.randrange(nch), 0) for _ in range(ncase)]
                     ops.append(sel(cases, dflt=rng.random() < 0.35))
             threads.append(ops)
-        S.append({"caps": caps, "threads": number_values(threads), "tag": "random"})
+        S.append({"caps": caps, "threads": number_values(threads), "tag": "random", "rev": rng.random() < 0.4})
     return S
 
 
@@ -176,11 +180,18 @@ def known_class(sc):
             recvs = {cs["c"] for cs in o["cases"] if not cs["send"] and caps[cs["c"]] == 0}
             if sends & recvs:
                 return "d1"
-            if not o["dflt"] and len(o["cases"]) >= 2:
+            if not o["dflt"]:
                 for c in sends:
                     sel_send_multi.add((ti, c))
-            for c in recvs:
-                sel_recv.add((ti, c))
+                if any(cs["send"] for cs in o["cases"]):
+                    for c in recvs:
+                        sel_recv.add((ti, c))
+    # (d3) a blocking select that sends on unbuffered c, and in another goroutine a blocking select that receives
+    # from c and also has a send case: when that select probes its sends first it refuses select-only senders
+    for (ta, c) in sel_send_multi:
+        for (tb, c2) in sel_recv:
+            if c == c2 and ta != tb:
+                return "d3"
     return None
 
 
@@ -188,11 +199,12 @@ REPRESENTATIVES = [
     ([0], [[sel([(True, 0, 0), (False, 0, 0)])], [sel([(True, 0, 0), (False, 0, 0)])]], "K1"),
     ([0], [[sel([(False, 0, 0), (True, 0, 0)])], [op("send", 0), sel([(False, 0, 0)], True)]], "K2"),
     ([0, 0], [[sel([(True, 0, 0), (False, 1, 0)])], [op("send", 1)], [sel([(False, 0, 0)], True)]], "K3"),
+    ([1, 0], [[sel([(True, 1, 0)])], [op("send", 0), sel([(False, 1, 0), (True, 0, 0)])]], "K4"),
 ]
 
 
 def canon(sc):
-    return json.dumps({"caps": sc["caps"], "threads": sc["threads"]}, sort_keys=True)
+    return json.dumps({"caps": sc["caps"], "threads": sc["threads"], "rev": bool(sc.get("rev"))}, sort_keys=True)
 
 
 def short(sc):
@@ -204,7 +216,7 @@ def short(sc):
         if x["k"] == "close":
             return "c%d" % x["c"]
         return "sel(" + ",".join(("s%d" if cs["send"] else "r%d") % cs["c"] for cs in x["cases"]) + (",d" if x["dflt"] else "") + ")"
-    return "caps=%s:" % "".join(map(str, sc["caps"])) + "|".join(",".join(o(x) for x in t) for t in sc["threads"])
+    return "caps=%s%s:" % ("".join(map(str, sc["caps"])), "rev" if sc.get("rev") else "") + "|".join(",".join(o(x) for x in t) for t in sc["threads"])
 
 
 # --------------------------------------------------------------------------- outcome keys (must match chansched's)
@@ -270,7 +282,7 @@ def check(chk):
     scen_path = os.path.join(rd, "scenarios.ndjson")
     with open(scen_path, "w") as f:
         for s in scen:
-            f.write(json.dumps({"id": s["id"], "caps": s["caps"], "threads": s["threads"]}) + "\n")
+            f.write(json.dumps({"id": s["id"], "caps": s["caps"], "threads": s["threads"], "rev": bool(s.get("rev"))}) + "\n")
     byid = {s["id"]: s for s in scen}
 
     # ---- layer A: every outcome Go allows, per scenario
